@@ -69,14 +69,15 @@ RULE = ("grammar-based s-expressions (depth <= 4) over every _unjelly_* tag, dot
         "of canaried dangerous callables; 8 kinds of policy objects alive together (default, basic, allowInstancesOf, modules+function/"
         "method/class/module/instance, instances+function+method, instances+method, a policy allowing only the other module, "
         "jelly.globalSecurity), pooled and fresh, used in interleaved order.  Round trip: random graphs (<= 25 nodes) with "
-        "shared and cyclic references.  Distinct = (policy, s-expression) resp. graph shape; non-trivial = the "
+        "shared and cyclic references; every third graph comes from a directed family whose cycles run THROUGH tuples / "
+        "frozensets / bound methods that are referenced from inside their own members and again after all ancestors closed.  Distinct = (policy, s-expression) resp. graph shape; non-trivial = the "
         "s-expression names a module/class/function/instance/method/dotted type, resp. the graph has a shared or "
         "cyclic reference.")
 ASSUMPTIONS = ["trusted base: the per-object policy record kept by the harness (documented effect of allowBasicTypes/allowInstancesOf/allowModules/allowTypes and the default type list), the result walker and the isomorphism checker in this module",
                "dangerous callables are represented by canaries (record + raise); the real ones are never reachable from a generated name",
                "only SecurityOptions-based policies are used (bytes/int/float atoms are always allowed by them)"]
 SHARDS = {"quick": 4, "thorough": 16}
-FLOORS = {"pooled_policy_cases": 10000, "fresh_policy_cases": 10000, "nothing_allowed_policy_cases": 8000, "method_atoms_generated": 3000, "inherited_or_dunder_method_names": 2000, "method_atom_cases_returned": 150, "unjelly_calls": 20000, "unjelly_returned": 3000, "unjelly_raised": 3000, "resolution_events": 1000, "objects_walked": 10000,
+FLOORS = {"directed_roundtrips": 3000, "immutable_nodes_in_cycles_rereferenced": 5000, "pooled_policy_cases": 10000, "fresh_policy_cases": 10000, "nothing_allowed_policy_cases": 8000, "method_atoms_generated": 3000, "inherited_or_dunder_method_names": 2000, "method_atom_cases_returned": 150, "unjelly_calls": 20000, "unjelly_returned": 3000, "unjelly_raised": 3000, "resolution_events": 1000, "objects_walked": 10000,
           "canary_selftest_trips": 10, "audit_selftest_blocks": 2, "roundtrips": 500, "roundtrip_shared_or_cyclic": 200,
           "instances_returned": 100, "dangerous_names_generated": 2000}
 READY = True
@@ -732,6 +733,66 @@ def gen_graph(rng, env):
     return nodes[0], shared
 
 
+def gen_directed(rng, env):
+    """Directed family: cycles THROUGH immutable nodes that are re-referenced later.  A small program:
+    make mutable containers; make immutable nodes (tuple / frozenset / bound method of an allowed
+    instance) from references to them — including containers that will be their ancestors and children
+    that later get a reference back to the immutable node; wire the mutables (extra references to the
+    immutables from inside their own members); finally reference the immutables again from the root,
+    after every ancestor has been closed."""
+    A = env.amod.Allowed
+    prim = lambda: rng.choice([0, 1, "s", b"b", None, 2.5, True])
+    mut = []
+    for uid in range(rng.randrange(2, 6)):
+        kind = rng.choice(["list", "list", "dict", "inst", "inst"])
+        if kind == "inst":
+            o = A()
+            o.uid = uid
+        else:
+            o = [] if kind == "list" else {}
+        mut.append(o)
+    insts = [o for o in mut if isinstance(o, A)]
+    imm = []
+    for _ in range(rng.randrange(1, 4)):
+        kind = rng.choice(["tuple", "tuple", "tuple", "frozenset", "method"])
+        if kind == "method" and insts:
+            imm.append(rng.choice(insts).meth)
+        elif kind == "frozenset" and insts:
+            imm.append(frozenset(rng.sample(insts, rng.randrange(1, len(insts) + 1)) + [prim() for _ in range(rng.randrange(0, 2))]))
+        else:
+            members = [rng.choice(mut) for _ in range(rng.randrange(1, 4))]
+            if imm and rng.random() < 0.4:
+                members.append(rng.choice(imm))
+            if rng.random() < 0.4:
+                members.insert(rng.randrange(len(members) + 1), prim())
+            imm.append(tuple(members))
+
+    def put(o, v):
+        if isinstance(o, list):
+            o.append(v)
+        elif isinstance(o, dict):
+            o["k%d" % len(o)] = v
+        else:
+            setattr(o, "a%d" % len(o.__dict__), v)
+
+    def members(t):
+        return [t.__self__] if isinstance(t, types.MethodType) else [x for x in t if any(x is m for m in mut)]
+
+    for t in imm:  # references back to the immutable node from inside its own members (and from elsewhere)
+        inside = members(t)
+        for _ in range(rng.randrange(1, 3)):
+            put(rng.choice(inside) if inside and rng.random() < 0.75 else rng.choice(mut), t)
+    for o in mut:  # ordinary wiring between the mutables
+        for _ in range(rng.randrange(0, 3)):
+            put(o, rng.choice(mut) if rng.random() < 0.6 else prim())
+    root = list(rng.sample(mut, rng.randrange(1, len(mut) + 1)))
+    rng.shuffle(imm)
+    root.extend(imm)  # ... and once more after every ancestor has been closed
+    if rng.random() < 0.3:
+        root.insert(0, rng.choice(imm))
+    return root, len(imm)
+
+
 class Diff(Exception):
     def __init__(self, text, placeholder_inside_own_container=False):
         Exception.__init__(self, text)
@@ -807,7 +868,13 @@ def run_roundtrip(ctx, env, i):
     from twisted.persisted.crefutil import NotKnown
 
     rng = ctx.case_rng("rt", i)
-    g, shared = gen_graph(rng, env)
+    if i % 3 == 2:
+        g, nimm = gen_directed(rng, env)
+        shared = True
+        ctx.count("directed_roundtrips")
+        ctx.count("immutable_nodes_in_cycles_rereferenced", nimm)
+    else:
+        g, shared = gen_graph(rng, env)
     use_taster = rng.random() < 0.6
     taster = (env.pool[5] if rng.random() < 0.5 else make_policy(env, 5)).taster if use_taster else env.jelly.DummySecurityOptions()
     ctx.evaluated()
